@@ -573,6 +573,50 @@ def scen_failed_start(env, kind):
                   info=lambda: (store, before))
 
 
+def scen_init_event(env, order, etype_kind):
+    """an event sent during start-up (from another block's restoration) reaches a persistent block
+    BEFORE that block restored its own state: the saved state must survive and be restored"""
+    clock = WallClock()
+    with clock:
+        circ = fresh_circuit()
+        v = env.int('sender_value')
+        saved = env.int('saved_counter')
+        store = PickleStore({"<Input 'src'>": v, "<Counter 'cnt'>": saved, 'edzed-stop-time': clock.time() - 10.0})
+        circ.set_persistent_data(store)
+        et = {'plain': 'inc', 'cond-none': edzed.EventCond('inc', None), 'cond-both': edzed.EventCond('inc', 'dec')}[etype_kind]
+
+        def mk_src():
+            return edzed.Input('src', persistent=True, initdef=0, on_output=edzed.Event('cnt', et))
+
+        def mk_cnt():
+            return edzed.Counter('cnt', persistent=True, initdef=1000)
+        if order == 0:
+            src, cnt = mk_src(), mk_cnt()        # the sender is restored first: its event finds cnt untouched
+        else:
+            cnt, src = mk_cnt(), mk_src()
+        out = {}
+
+        async def main():
+            asyncio.create_task(circ.run_forever())
+            try:
+                await circ.wait_init()
+                out['ok'] = True
+            except edzed.EdzedInvalidState:
+                out['ok'] = False
+            out['cnt'] = cnt.output
+            if out['ok']:
+                await circ.shutdown()
+        vloop.run(main())
+        # reference: cnt is restored to its saved value; the sender's restoration (UNDEF -> v) sends one event
+        if etype_kind == 'plain':
+            exp = saved + 1
+        elif etype_kind == 'cond-none':
+            exp = If_(v != 0, saved + 1, saved)
+        else:
+            exp = If_(v != 0, saved + 1, saved - 1)
+        env.check('restored-state', out['ok'] and bool(env.holds(eq_(out['cnt'], exp))), info=lambda: (order, etype_kind, out, exp))
+
+
 def shards(tier):
     nev = BOUNDS[tier]['events']
     out = [{'name': 'failed start: start() raises', 'scenario': 'scen_failed_start', 'params': {'kind': 'start'}},
@@ -595,6 +639,10 @@ def shards(tier):
                                 'scenario': 'scen_fsm',
                                 'params': {'sync': sync, 'nev': fnev, 'ev0': ev0, 'snap_idx': si, 'ek': ek},
                                 'cost': (20 if ev0 == 'arm' else 5) * (2 if ek == 'sym' else 1)})
+    for order in (0, 1):
+        for ek in ('plain', 'cond-none', 'cond-both'):
+            out.append({'name': f'init-time event order={order} {ek}', 'scenario': 'scen_init_event',
+                        'params': {'order': order, 'etype_kind': ek}})
     for kind in ('timer', 'inputexp'):
         out.append({'name': f'derived {kind}', 'scenario': 'scen_derived', 'params': {'kind': kind}})
     return out
